@@ -244,7 +244,17 @@ def recv_path(res, W, tier, rng, shard, nshards):
                     one_recv_case(res, W, data, frags, skip, path, valid, cls)
 
 
+import logging as _logging
+
+_NULL = _logging.NullHandler()
+
+
 def one_recv_case(res, W, data, frags, skip, path, valid, cls):
+    # the process-wide trace switch adds a formatting path over every received frame: half of the cases run with it on
+    trace_on = (len(data) + len(frags) + (1 if skip else 0)) % 2 == 0
+    W.enableTrace(trace_on, handler=_NULL)
+    if trace_on:
+        res.count("recv_cases_with_trace_on")
     code = b"\x03\xe8"
     if path.startswith("close"):
         code = {"close": b"\x03\xe8", "close-3000": b"\x0b\xb8", "close-4999": b"\x13\x87", "close-1011": b"\x03\xf3"}[path]
@@ -253,20 +263,34 @@ def one_recv_case(res, W, data, frags, skip, path, valid, cls):
         stream = b""
         for i, f in enumerate(frags):
             stream += R.encode(R.TEXT if i == 0 else R.CONT, f, fin=1 if i == len(frags) - 1 else 0)
-    stream += R.encode(R.BINARY, b"sentinel")
-    case = {"gen": "recv", "data": data, "frags": [len(f) for f in frags], "skip_utf8_validation": skip, "path": path}
+    # what follows a (possibly rejected) message is judged on its own: a continuation byte that would complete the rejected
+    # tail, a plain text, a binary message
+    follow = [(R.TEXT, b"\xac"), (R.TEXT, b"hello"), (R.BINARY, b"sentinel")]
+    for op, body in follow:
+        stream += R.encode(op, body)
+    case = {"gen": "recv", "data": data, "frags": [len(f) for f in frags], "skip_utf8_validation": skip, "path": path, "trace": trace_on}
 
     def scen():
         w, conn, peer = H.connected_ws(after=stream, ws_kwargs={"skip_utf8_validation": skip}, timeout=1)
         try:
             if path == "text":
-                return ("value", w.recv())
-            op, d = w.recv_data()
-            return ("value", (op, d))
+                first = ("value", w.recv())
+            else:
+                op, d = w.recv_data()
+                first = ("value", (op, d))
         except BaseException as e:  # noqa
-            return ("exc", e)
+            first = ("exc", e)
+        after = []
+        if not path.startswith("close") and w.connected:
+            for _ in follow:
+                try:
+                    after.append(("value", w.recv_data()))
+                except BaseException as e:  # noqa
+                    after.append(("exc", e))
+        return first, after
 
-    (kind, val), _ = H.in_sim(scen)
+    ((kind, val), after), _ = H.in_sim(scen)
+    W.enableTrace(False)
     res.count("recv_cases")
     res.case(("recv", data, tuple(len(f) for f in frags), skip, path), nontrivial=any(b >= 0x80 for b in data))
     exc_name = type(val).__name__ if kind == "exc" else None
@@ -292,6 +316,17 @@ def one_recv_case(res, W, data, frags, skip, path, valid, cls):
             ok = kind == "value" and val[0] == R.TEXT and bytes(val[1]) == data
         else:
             ok = kind == "exc" and isinstance(val, (W.WebSocketProtocolException, W.WebSocketPayloadException))
+    if ok and after:
+        # the next messages on the same connection: b"\xac" alone is ill-formed (rejected unless validation is off), then "hello", then binary
+        exp_after = [("exc",) if not skip else ("value", (R.TEXT, b"\xac")), ("value", (R.TEXT, b"hello")), ("value", (R.BINARY, b"sentinel"))]
+        for (ek, *ev), (ak, av) in zip(exp_after, after):
+            good = (ek == "exc" and ak == "exc" and isinstance(av, (W.WebSocketProtocolException, W.WebSocketPayloadException))) or \
+                   (ek == "value" and ak == "value" and (av[0], bytes(av[1])) == ev[0])
+            res.count("followup_messages_checked")
+            if not good:
+                res.violation("recv-after-rejection", f"payload {data.hex()} ({cls}) frags={case['frags']} skip={skip}: the message after it: expected {ek} {ev}, got {ak} {repr(av)[:80]}",
+                              case, input_class=cls, skip=skip, first_outcome=("rejected" if kind == "exc" else "delivered"))
+                break
     if not ok:
         res.violation("recv-mismatch",
                       f"payload {data.hex()} ({cls}) frags={case['frags']} skip={skip} path={path}: got {('exception ' + exc_name + ': ' + str(val)[:80]) if kind == 'exc' else repr(val)[:80]}",
